@@ -8,9 +8,13 @@
 use core::marker::PhantomData;
 use core::fmt::Debug;
 
+#[derive(Debug)]
 pub struct BoxedErr { pub code: u64 }
+#[derive(Debug)]
 pub enum NutsError { LogpFailure(BoxedErr), SerializeFailure(), BadInitGrad(BoxedErr) }
+#[derive(Debug)]
 pub struct ErrHandle { pub code: u64 }
+#[derive(Debug)]
 pub struct AnyhowErr { pub code: u64 }
 #[verifier::external_body]
 pub fn opaque_anyhow() -> AnyhowErr { unimplemented!() }
